@@ -206,6 +206,9 @@ def execute(scn):
     model = Model(spec)
     stats, events, viols, sets = {}, [], [], {}
     kind = scn["agg"]["kind"]
+    from ..world import require_valid
+
+    require_valid(model, {"api": "backward", "tensors": scn["tensors"], "inputs": scn["inputs_c"], "agg": scn["agg"], "chunk": scn.get("chunk")})
     J, _ = model.jac_rows(scn["tensors"], scn["inputs_a"])
     m = J.shape[0]
     ambiguous = False
@@ -221,7 +224,7 @@ def execute(scn):
         world, out, rec, eff = _run(scn, inputs, sched, stats, wide=scn.get("wide_ghost") if tag == "c" else None)
         events.append([tag, out["ok"], out["exc"], eff])
         if not out["ok"]:
-            viols.append({"clause": "valid_call_raised", "step": tag, "details": out, "key": {"exc": out["exc"]}})
+            viols.append({"clause": "valid_call_raised", "step": tag, "details": out, "key": {"exc": out["exc"], "msg": (out.get("msg") or "")[:40]}})
             return {"violations": viols, "events": events, "stats": stats, "sig": None, "nontrivial": False}
         runs.append((world, rec, eff))
     wa, ra, effa = runs[0]
